@@ -237,7 +237,21 @@ def binop(st: State, op: str, a: V, b: V, spec=False, alloc=None) -> V:
             return V(REAL, x / y)
         raise Unsupported("numeric op %s" % op)
     if ka in ("str", "bytes") and ka == kb and op == "+":
-        return V(a.ty, z3.Concat(a.t, b.t))
+        r = z3.Concat(a.t, b.t)
+        if st is not None and ka == "str" and not spec:
+            # newline accounting: count(a + b, NL) = count(a, NL) + count(b, NL) (NL is one character); literal sides counted outright
+            from .speceval import count_fn
+            nl = z3.StringVal("\n")
+            def cnt(t):
+                ts = z3.simplify(t)
+                if z3.is_string_value(ts):
+                    import re as _re
+                    raw = _re.sub(r"\\u\{([0-9a-fA-F]+)\}", lambda m: chr(int(m.group(1), 16)), ts.as_string())
+                    return z3.IntVal(raw.count("\n"))
+                return count_fn()(t, nl)
+            if z3.is_string_value(z3.simplify(a.t)) or z3.is_string_value(z3.simplify(b.t)):
+                st.assume(count_fn()(r, nl) == cnt(a.t) + cnt(b.t))
+        return V(a.ty, r)
     if ka == "str" and op == "%" and kb == "tuple" and all(i.ty.kind == "str" for i in b.items):
         # %-formatting with a tuple of strings: an opaque function of the template and each operand
         f = UF("fmt_strs%d" % len(b.items), *([z3.StringSort()] * (len(b.items) + 2)))
@@ -252,7 +266,14 @@ def binop(st: State, op: str, a: V, b: V, spec=False, alloc=None) -> V:
         # %-formatting: value is an opaque function of the operands
         return V(STR, UF("fmt_%s" % b.ty.kind, z3.StringSort(), z3.IntSort(), z3.StringSort())(a.t, box(b).t))
     if ka == "str" and kb == "int" and op == "*":
-        return V(STR, UF("str_repeat", z3.StringSort(), z3.IntSort(), z3.StringSort())(a.t, b.t))
+        r = UF("str_repeat", z3.StringSort(), z3.IntSort(), z3.StringSort())(a.t, b.t)
+        if st is not None and z3.is_string_value(z3.simplify(a.t)) and len(z3.simplify(a.t).as_string()) == 1:
+            # c * n for a one-character literal: n copies (none for n <= 0)
+            from .speceval import count_fn
+            n = z3.If(b.t < 0, 0, b.t)
+            st.assume(z3.Length(r) == n)
+            st.assume(count_fn()(r, a.t) == n)
+        return V(STR, r)
     seqlike = lambda v: v.ty.kind in ("seq", "tuple") or is_listlike(v.ty)
     if seqlike(a) and seqlike(b) and op == "+":
         sa, sb = as_seq(st, a), as_seq(st, b)
